@@ -11,6 +11,7 @@ package main
 import (
 	"fmt"
 	"go/ast"
+	"go/token"
 	"os"
 	"path/filepath"
 	"sort"
@@ -162,8 +163,7 @@ func main() {
 	type hnd struct{ module, name, gate string }
 	var sites []site
 	var handlers []hnd
-	formulas := map[string]bool{}
-	nilReturns := -1
+	accepts := map[string]string{}
 
 	for _, d := range dirs {
 		files := ParseDir(d)
@@ -182,9 +182,34 @@ func main() {
 				}
 			}
 		}
-		// direct gate sites
+		// gate sites: functions that call a gate directly, or through an unexported helper of the
+		// package that only checks (no state write anywhere in it) — so extracting the check into
+		// a helper (requireRoot, requireSudoer, …) keeps the site where it was
+		hasWrite := func(fd *ast.FuncDecl) bool {
+			for _, e := range events(fd) {
+				if e.kind == "write" {
+					return true
+				}
+			}
+			return false
+		}
+		helperGate := map[string]string{}
+		for _, fd := range all {
+			if _, isGate := gateFuncs[fd.Name.Name]; isGate || fd.Name.IsExported() || isHandler(fd) || hasWrite(fd) {
+				continue
+			}
+			for _, e := range events(fd) {
+				if strings.HasPrefix(e.kind, "Gate") && len(byName[fd.Name.Name]) == 1 {
+					helperGate[fd.Name.Name] = e.kind
+					break
+				}
+			}
+		}
 		for _, fd := range all {
 			if _, isGate := gateFuncs[fd.Name.Name]; isGate {
+				continue
+			}
+			if _, isHelper := helperGate[fd.Name.Name]; isHelper {
 				continue
 			}
 			evs := events(fd)
@@ -193,8 +218,14 @@ func main() {
 				if e.kind == "write" {
 					seenWrite = true
 				}
-				if strings.HasPrefix(e.kind, "Gate") && gate == "" {
-					gate = e.kind
+				k := e.kind
+				if strings.HasPrefix(k, "call:") {
+					if hg, ok := helperGate[strings.TrimPrefix(k, "call:")]; ok {
+						k = hg
+					}
+				}
+				if strings.HasPrefix(k, "Gate") && gate == "" {
+					gate = k
 					first = !seenWrite
 				}
 			}
@@ -263,36 +294,17 @@ func main() {
 			}
 			handlers = append(handlers, hnd{module, recvName(fd) + "." + fd.Name.Name, g})
 		}
-		// the gate functions themselves
+		// the gate functions themselves: the condition under which they return nil
 		for _, fd := range all {
-			body := Nospace(fd.Body)
 			switch fd.Name.Name {
 			case "CheckPermissions":
-				if recvName(fd) != "Keeper" || module != "sudo" {
-					continue
+				if recvName(fd) == "Keeper" && module == "sudo" {
+					accepts["check_permissions_accepts"] = acceptCondition(fd)
 				}
-				formulas["check_permissions_formula"] =
-					strings.Contains(body, "state,err:=k.Sudoers.Get(ctx)") &&
-						strings.Contains(body, "contracts:=state.Contracts") &&
-						strings.Contains(body, "hasPermission:=set.New(contracts...).Has(contract.String())||contract.String()==state.Root") &&
-						strings.Contains(body, "if!hasPermission{returnfmt.Errorf(")
-				nilReturns = 0
-				ast.Inspect(fd.Body, func(n ast.Node) bool {
-					if r, ok := n.(*ast.ReturnStmt); ok && len(r.Results) == 1 {
-						if id, ok := r.Results[0].(*ast.Ident); ok && id.Name == "nil" {
-							nilReturns++
-						}
-					}
-					return true
-				})
 			case "senderHasPermission":
-				formulas["sender_has_permission_formula"] = strings.HasPrefix(body, "{ifsender!=root{returnfmt.Errorf(") &&
-					strings.HasSuffix(body, "}returnnil}")
+				accepts["sender_has_permission_accepts"] = acceptCondition(fd)
 			case "validateRootPermissions":
-				formulas["validate_root_formula"] =
-					strings.Contains(body, "root,err:=sdk.AccAddressFromBech32(pbSudoers.Root)") &&
-						strings.Contains(body, "sender,err:=sdk.AccAddressFromBech32(msg.Sender)") &&
-						strings.Contains(body, "if!root.Equals(sender){returnsudotypes.ErrUnauthorized}")
+				accepts["validate_root_accepts"] = acceptCondition(fd)
 			}
 		}
 	}
@@ -333,8 +345,142 @@ func main() {
 		fmt.Printf("  {| h_module := %s; h_name := %s; h_gate := %s |}%s\n", CoqString(h.module), CoqString(h.name), h.gate, sep)
 	}
 	fmt.Println("].")
-	fmt.Printf("Definition check_permissions_formula : bool := %s.\n", CoqBool(formulas["check_permissions_formula"]))
-	fmt.Printf("Definition check_permissions_nil_returns : nat := %d.\n", max(nilReturns, 0))
-	fmt.Printf("Definition sender_has_permission_formula : bool := %s.\n", CoqBool(formulas["sender_has_permission_formula"]))
-	fmt.Printf("Definition validate_root_formula : bool := %s.\n", CoqBool(formulas["validate_root_formula"]))
+	fmt.Println("(* the condition under which each gate function returns nil (locals inlined, early-return shape normalised) *)")
+	for _, k := range []string{"check_permissions_accepts", "sender_has_permission_accepts", "validate_root_accepts"} {
+		fmt.Printf("Definition %s : string := %s.\n", k, CoqString(accepts[k]))
+	}
+}
+
+// ---------------------------------------------------------------- symbolic reading of a gate function
+
+func render(e ast.Expr, env map[string]string) string {
+	switch x := e.(type) {
+	case nil:
+		return ""
+	case *ast.Ident:
+		if v, ok := env[x.Name]; ok {
+			return v
+		}
+		return x.Name
+	case *ast.SelectorExpr:
+		return render(x.X, env) + "." + x.Sel.Name
+	case *ast.CallExpr:
+		var as []string
+		for i, a := range x.Args {
+			t := render(a, env)
+			if x.Ellipsis != token.NoPos && i == len(x.Args)-1 {
+				t += "..."
+			}
+			as = append(as, t)
+		}
+		return render(x.Fun, env) + "(" + strings.Join(as, ",") + ")"
+	case *ast.BinaryExpr:
+		return render(x.X, env) + x.Op.String() + render(x.Y, env)
+	case *ast.UnaryExpr:
+		if x.Op == token.NOT {
+			return negate(render(x.X, env))
+		}
+		return x.Op.String() + render(x.X, env)
+	case *ast.ParenExpr:
+		return "(" + render(x.X, env) + ")"
+	case *ast.BasicLit:
+		return x.Value
+	}
+	return Nospace(e)
+}
+
+func balanced(t string) bool {
+	d := 0
+	for _, r := range t {
+		if r == '(' {
+			d++
+		} else if r == ')' {
+			d--
+			if d < 0 {
+				return false
+			}
+		}
+	}
+	return d == 0
+}
+
+func strip(c string) string {
+	for strings.HasPrefix(c, "(") && strings.HasSuffix(c, ")") && balanced(c[1:len(c)-1]) {
+		c = c[1 : len(c)-1]
+	}
+	return c
+}
+
+func negate(c string) string {
+	c = strip(c)
+	if strings.HasPrefix(c, "!(") && strings.HasSuffix(c, ")") && balanced(c[2:len(c)-1]) {
+		return c[2 : len(c)-1]
+	}
+	if !strings.Contains(c, "&&") && !strings.Contains(c, "||") {
+		if i := strings.Index(c, "=="); i >= 0 {
+			return c[:i] + "!=" + c[i+2:]
+		}
+		if i := strings.Index(c, "!="); i >= 0 {
+			return c[:i] + "==" + c[i+2:]
+		}
+	}
+	return "!(" + c + ")"
+}
+
+// acceptCondition reads a function of the shape
+//
+//	{ x, err := f(..); if err != nil { return err } }*  { x := e }*  if C { return R1 }  return R2
+//
+// and returns the condition under which it returns nil: C when R1 is nil and R2 is not, not-C the
+// other way round; anything else is reported as "unknown:<n decisions>".
+func acceptCondition(fd *ast.FuncDecl) string {
+	env := map[string]string{}
+	type dec struct {
+		cond string
+		nil_ bool
+	}
+	var ds []dec
+	isNil := func(r *ast.ReturnStmt) bool {
+		if len(r.Results) == 0 {
+			return false
+		}
+		id, ok := r.Results[len(r.Results)-1].(*ast.Ident)
+		return ok && id.Name == "nil"
+	}
+	for _, st := range fd.Body.List {
+		switch x := st.(type) {
+		case *ast.AssignStmt:
+			if len(x.Rhs) == 1 {
+				if id, ok := x.Lhs[0].(*ast.Ident); ok && id.Name != "_" {
+					env[id.Name] = render(x.Rhs[0], env)
+				}
+			}
+		case *ast.IfStmt:
+			if b, ok := x.Cond.(*ast.BinaryExpr); ok && b.Op == token.NEQ {
+				if l, ok := b.X.(*ast.Ident); ok && l.Name == "err" {
+					continue
+				}
+			}
+			if len(x.Body.List) == 0 {
+				ds = append(ds, dec{"?", false})
+				continue
+			}
+			if r, ok := x.Body.List[len(x.Body.List)-1].(*ast.ReturnStmt); ok {
+				ds = append(ds, dec{strip(render(x.Cond, env)), isNil(r)})
+			} else {
+				ds = append(ds, dec{"?", false})
+			}
+		case *ast.ReturnStmt:
+			ds = append(ds, dec{"true", isNil(x)})
+		default:
+			ds = append(ds, dec{"?", false})
+		}
+	}
+	if len(ds) == 2 && ds[1].cond == "true" && ds[0].cond != "?" && ds[0].nil_ != ds[1].nil_ {
+		if ds[0].nil_ {
+			return ds[0].cond
+		}
+		return negate(ds[0].cond)
+	}
+	return fmt.Sprintf("unknown:%d decisions", len(ds))
 }
